@@ -112,9 +112,10 @@ partial def parseTy : Parser Ty := fun cs =>
   | [] => none
 
 def parseHexNat (digits : Nat) : Parser Nat := fun cs =>
-  if cs.length < digits then none
+  let hd := cs.take digits        -- (not `cs.length`: the rest of the line may be long)
+  if hd.length < digits then none
   else
-    (cs.take digits).foldlM (fun a c => (hexVal c).map fun d => 16 * a + d) 0 |>.map fun v => (v, cs.drop digits)
+    hd.foldlM (fun a c => (hexVal c).map fun d => 16 * a + d) 0 |>.map fun v => (v, cs.drop digits)
 
 def parseHexBytes : Parser Bytes := fun cs =>
   let hs := cs.takeWhile fun c => (hexVal c).isSome
